@@ -65,6 +65,9 @@ if [ ! -f "$H/ok" ]; then
   done
   $HCC -Wall -c "$VERIF/sim/wrappers.c" -o "$H/wrappers.o" & pids+=($!)
   gcc -c "$VERIF/sim/wrappers_asm.S" -o "$H/wrappers_asm.o" & pids+=($!)
+  # the C caller with opaque handles; typed handles if the tree's header cannot be used through `void *` (see sim/ccaller.c)
+  ( $HCC -std=gnu99 -Wall -I"$REPO/src" -c "$VERIF/sim/ccaller.c" -o "$H/ccaller.o" 2>"$H/ccaller.log" \
+    || $HCC -std=gnu99 -Wall -DSIM_TYPED_HANDLES -I"$REPO/src" -c "$VERIF/sim/ccaller.c" -o "$H/ccaller.o" 2>>"$H/ccaller.log" ) & pids+=($!)
   for p in "${pids[@]}"; do wait "$p" || { echo "build.sh: harness compile failed" >&2; exit 2; }; done
   touch "$H/ok"
 fi
